@@ -289,7 +289,7 @@ class PropertyRun:
             json.dump(evidence, f, indent=1, default=str)
         for u in self.undecided:
             print('UNDECIDED property=%s obligation=%s (%s)' % (self.pid, u['obligation'], u['reason']))
-        for k in self.known_hits:
+        for k in dict.fromkeys(self.known_hits):        # each finding once
             print('KNOWN-FINDING: property=%s %s' % (self.pid, k))
         for name, path, found in self.violations:
             print('VIOLATION property=%s replay=%s%s' % (self.pid, path, '' if found else ' no-failing-input-found'))
